@@ -1,2 +1,129 @@
-(** C23 — placeholder while the theorems are being proved (statements only live here). *)
-Require Import MPyC.Gfpx MPyC.Gf2x.
+(** C23 — polynomials over GF(p) form a ring with a correct division algorithm.
+    Only statements; proofs are in theories/Gfpx.v (generic list class) and theories/Gf2x.v
+    (binary bitmask class).  [wf p a]: entries in [0,p), no trailing zero (the class invariant). *)
+Require Import MPyC.Base MPyC.Zp MPyC.Gfpx MPyC.Gf2x.
+From Coq Require Import ZArith Znumtheory.
+Local Open Scope nat_scope.
+
+Notation inr p a := (Forall (fun x => (0 <= x < p)%Z) a).
+
+(** (a) normal-form invariant *)
+Theorem C23_add_normal_form : forall p a b, inr p a -> inr p b -> wf p (add p a b).
+Proof. exact add_wf. Qed.
+Print Assumptions C23_add_normal_form.
+Theorem C23_sub_normal_form : forall p a b, inr p a -> inr p b -> wf p (sub p a b).
+Proof. exact sub_wf. Qed.
+Print Assumptions C23_sub_normal_form.
+Theorem C23_neg_normal_form : forall p a, wf p a -> wf p (neg p a).
+Proof. exact neg_wf. Qed.
+Print Assumptions C23_neg_normal_form.
+Theorem C23_mul_normal_form : forall p a b, prime p -> wf p a -> wf p b -> wf p (mul p a b).
+Proof. exact mul_wf. Qed.
+Print Assumptions C23_mul_normal_form.
+
+(** (b) coefficient semantics of + - and unary -, commutative group *)
+Theorem C23_add_coef : forall p a b i, inr p a -> inr p b ->
+  nth i (add p a b) 0%Z = ((nth i a 0 + nth i b 0) mod p)%Z.
+Proof. exact add_coef. Qed.
+Print Assumptions C23_add_coef.
+Theorem C23_sub_coef : forall p a b i, inr p a -> inr p b ->
+  nth i (sub p a b) 0%Z = ((nth i a 0 - nth i b 0) mod p)%Z.
+Proof. exact sub_coef. Qed.
+Print Assumptions C23_sub_coef.
+Theorem C23_neg_coef : forall p a i, inr p a -> nth i (neg p a) 0%Z = ((- nth i a 0) mod p)%Z.
+Proof. exact neg_coef. Qed.
+Print Assumptions C23_neg_coef.
+Theorem C23_add_comm : forall p a b, add p a b = add p b a.
+Proof. exact add_comm. Qed.
+Print Assumptions C23_add_comm.
+Theorem C23_add_assoc : forall p a b c, (0 < p)%Z -> inr p a -> inr p b -> inr p c ->
+  add p (add p a b) c = add p a (add p b c).
+Proof. exact add_assoc. Qed.
+Print Assumptions C23_add_assoc.
+Theorem C23_add_zero : forall p a, wf p a -> add p a [] = a.
+Proof. exact add_0_r. Qed.
+Print Assumptions C23_add_zero.
+Theorem C23_add_neg : forall p a, (0 < p)%Z -> inr p a -> add p a (neg p a) = [].
+Proof. exact add_neg_r. Qed.
+Print Assumptions C23_add_neg.
+Theorem C23_sub_is_add_neg : forall p a b, (0 < p)%Z -> inr p a -> inr p b -> sub p a b = add p a (neg p b).
+Proof. exact sub_add_neg. Qed.
+Print Assumptions C23_sub_is_add_neg.
+
+(** (d) multiplication is the convolution reduced mod p; ring laws; _sq = _mul *)
+Theorem C23_mul_coef : forall p a b k, (0 < p)%Z -> nth k (mul p a b) 0%Z = ((nth k (mulz a b) 0) mod p)%Z.
+Proof. exact mul_coef. Qed.
+Print Assumptions C23_mul_coef.
+Theorem C23_mulz_is_convolution : forall a b k, nth k (mulz a b) 0%Z = conv a b k k.
+Proof. exact mulz_coef. Qed.
+Print Assumptions C23_mulz_is_convolution.
+Theorem C23_mul_comm : forall p a b, prime p -> wf p a -> wf p b -> mul p a b = mul p b a.
+Proof. exact mul_comm. Qed.
+Print Assumptions C23_mul_comm.
+Theorem C23_mul_assoc : forall p a b c, prime p -> wf p a -> wf p b -> wf p c ->
+  mul p (mul p a b) c = mul p a (mul p b c).
+Proof. exact mul_assoc. Qed.
+Print Assumptions C23_mul_assoc.
+Theorem C23_mul_add_distr : forall p a b c, prime p -> wf p a -> wf p b -> wf p c ->
+  mul p a (add p b c) = add p (mul p a b) (mul p a c).
+Proof. exact mul_add_distr_l. Qed.
+Print Assumptions C23_mul_add_distr.
+Theorem C23_mul_one : forall p a, (1 < p)%Z -> wf p a -> mul p a [1%Z] = a.
+Proof. exact mul_1_r. Qed.
+Print Assumptions C23_mul_one.
+Theorem C23_mul_zero : forall p a, mul p a [] = [].
+Proof. exact mul_0_r. Qed.
+Print Assumptions C23_mul_zero.
+Theorem C23_sq_eq_mul : forall p a, (0 < p)%Z -> sq p a = mul p a a.
+Proof. exact sq_eq_mul. Qed.
+Print Assumptions C23_sq_eq_mul.
+
+(** (c) division algorithm *)
+Theorem C23_divmod_spec : forall p a b q r, prime p -> wf p a -> wf p b -> divmod p a b = Ok (q, r) ->
+  a = add p (mul p q b) r /\ length r < length b /\ wf p r /\ inr p q.
+Proof. exact divmod_spec. Qed.
+Print Assumptions C23_divmod_spec.
+Theorem C23_divmod_by_zero : forall p a, divmod p a [] = ZeroDiv.
+Proof. exact divmod_zero. Qed.
+Print Assumptions C23_divmod_by_zero.
+Theorem C23_mod_is_divmod_remainder : forall p a b,
+  pmod p a b = bind (divmod p a b) (fun qr => Ok (snd qr)).
+Proof. exact pmod_eq_divmod. Qed.
+Print Assumptions C23_mod_is_divmod_remainder.
+
+(** (e) extended Euclid: Bezout identity, monic gcd, normal forms; never runs out of fuel *)
+Theorem C23_gcdext_bezout : forall p a b g s t, prime p -> wf p a -> wf p b -> gcdext p a b = Ok (g, s, t) ->
+  add p (mul p s a) (mul p t b) = g /\ wf p g /\ wf p s /\ wf p t /\ (g = [] \/ last g 0%Z = 1%Z).
+Proof. exact gcdext_bezout. Qed.
+Print Assumptions C23_gcdext_bezout.
+Theorem C23_gcdext_total : forall p a b, prime p -> wf p a -> wf p b -> exists g s t, gcdext p a b = Ok (g, s, t).
+Proof. exact gcdext_total. Qed.
+Print Assumptions C23_gcdext_total.
+
+(** (f) the binary class refines the list class at p = 2 (addition/subtraction = xor) *)
+Theorem C23_gf2x_add_refines : forall a b, (0 <= a)%Z -> (0 <= b)%Z -> bits (add2 a b) = add 2 (bits a) (bits b).
+Proof. exact bits_add2. Qed.
+Print Assumptions C23_gf2x_add_refines.
+Theorem C23_gf2x_sub_refines : forall a b, (0 <= a)%Z -> (0 <= b)%Z -> bits (add2 a b) = sub 2 (bits a) (bits b).
+Proof. exact bits_sub2. Qed.
+Print Assumptions C23_gf2x_sub_refines.
+Theorem C23_gf2x_bits_normal_form : forall a, wf 2 (bits a).
+Proof. exact bits_wf. Qed.
+Print Assumptions C23_gf2x_bits_normal_form.
+Theorem C23_gf2x_bits_roundtrip : forall a, (0 <= a)%Z -> unbits (bits a) = a.
+Proof. exact unbits_bits. Qed.
+Print Assumptions C23_gf2x_bits_roundtrip.
+
+(** Non-vacuity: GF(7), a = 1+2X+3X^2+4X^3+5X^4, b = 3+2X^2 *)
+Example C23_nonvacuous :
+  prime 7 /\ wf 7 [1;2;3;4;5]%Z /\ wf 7 [3;0;2]%Z /\
+  divmod 7 [1;2;3;4;5]%Z [3;0;2]%Z = Ok ([3;2;6], [6;3])%Z /\
+  gcdext 7 [1;2;3;4;5]%Z [3;0;2]%Z = Ok ([1], [5;1], [1;1;3;1])%Z /\
+  add 7 (mul 7 [5;1]%Z [1;2;3;4;5]%Z) (mul 7 [1;1;3;1]%Z [3;0;2]%Z) = [1%Z] /\
+  bits (add2 13 7) = [0;1;0;1]%Z.
+Proof.
+  split; [apply is_prime_small_correct; reflexivity|].
+  split; [split; [repeat constructor; lia|cbn; lia]|].
+  split; [split; [repeat constructor; lia|cbn; lia]|].
+  vm_compute. auto.
+Qed.
